@@ -2417,8 +2417,18 @@ func (s *scanner) processScannedFiles(entryPointMeta []graph.EntryPoint) []scann
 		}
 	}
 
-	// Automatically minify the metafile JSON if the bundle is really big
-	if len(s.results) > 256 {
+	// Automatically minify the metafile JSON if the bundle is really big. Only
+	// count the files that are part of this build: source indices are cached
+	// across rebuilds, so the length of the results array also covers files that
+	// earlier builds of the same context have seen, and the format of an
+	// incremental build must not differ from that of a fresh build.
+	fileCount := 0
+	for _, result := range s.results {
+		if result.ok {
+			fileCount++
+		}
+	}
+	if fileCount > 256 {
 		s.options.MetafileFormat = config.MinifiedMetafile
 	}
 
